@@ -533,12 +533,17 @@ def isDag (b : Builder) (o : COpts) : Bool := o.trigger = .allPred || b.cmp = .w
 def Builder.hasUntyped (b : Builder) : Bool :=
   b.nodes.any (fun n => n.inTy.isNone || n.outTy.isNone)
 
+/-- `for _, v := range g.toValidateMap { if len(v) > 0 {…} }`: some key of the map still has
+    pending entries (the map is read through its keys, like a Go map) -/
+def Builder.hasPending (b : Builder) : Bool :=
+  b.toValidate.any (fun p => !(getSlice b.toValidate p.1).isEmpty)
+
 def compilePre (f : Facts) (b : Builder) (o : COpts) : Option ErrKind :=
   if (b.cmp = .chain || b.cmp = .workflow) && o.trigger != .unset then some .triggerModeOnChain
   else if b.cmp != .workflow && o.getState then some .getStateOutsideWorkflow
   else if b.startNodes.isEmpty then some .noStart
   else if b.endNodes.isEmpty then some .noEnd
-  else if b.toValidate.any (fun p => !p.2.isEmpty) then some .uninferred
+  else if b.hasPending then some .uninferred
   else if f.compileChecksTypes && b.hasUntyped then some .uninferred
   else if hasDup b.fmRecords then some .dupMapTarget
   else none
